@@ -477,8 +477,293 @@ def boundary_cases(ctx):
             bcase(ctx, [k], [1], 2, "m = 1, single-one / single-zero point of n = 5")
 
 
+# ------------------------------------------------------------------------------------------------
+# input-diversity section: the same observable on the FORMS an ordinary valid input / call can take
+# ------------------------------------------------------------------------------------------------
+
+DIVERSITY = {
+    "element types": "outputs as python int / numpy int64, int32, int8 scalars (dict built from a numpy array) / integral python float, "
+                     "numpy float64, float32; n_output_values as python int / numpy int64 / integral float; keys as "
+                     "str and numpy str_; params as dict / OrderedDict",
+    "scale": "all outputs equal, exactly repeated outputs, one output far beyond the requested range (N' = max s - 1 >> N), huge N "
+             "(phases 2 pi s / N of 1e-3 .. 1e-6 rad), m = 1 .. 2^n",
+    "phase": "phases exactly 0, pi/2, pi, 3pi/2 (N' = 4, 2), s = N' and s = N' + 1 (phase 2 pi and beyond), N' = 1 (all phases multiples "
+             "of 2 pi)",
+    "call forms": "opt_params None / {} / {'n_output_values': None} / {'n_output_values': N} / with an unrelated extra key; the same "
+                  "opt_params dict object reused for a second construction with a different N; label together with opt_params; copy() "
+                  "before / after the definition is built; one gate object appended twice; static initialize with opt_params AND "
+                  "qubits given as permuted non-ascending int list / Qubit objects / registers c,g,x declared in another order on a "
+                  "wider host; the caller's dicts must be left unchanged",
+    "sizes": "n = 2 (empty ladder loop), 3 (one step), 4 (two steps); m = 1, 2, 3, 2^n",
+}
+
+SCALARS = {
+    "int": int, "np-int64": lambda x: np.int64(x), "np-int32": lambda x: np.int32(x), "np-int8": lambda x: np.int8(x),
+    "float": float, "np-float64": lambda x: np.float64(x), "np-float32": lambda x: np.float32(x),
+}   # complex outputs are not a form of "integer outputs" (max() has no order on them: TypeError) -- not generated
+OPTFORMS = ("none", "empty", "none-key", "N", "N-extra-key", "N-np-int64", "N-float", "reused-dict")
+DIV_HOWS = ("ctor", "ctor-label", "copy-before-def", "def-then-copy", "append-twice", "static-none", "static-ints",
+            "static-qubit-objs", "static-registers")
+
+
+def _div_params(keys, svals, stype, container):
+    vals = [SCALARS[stype](x) for x in svals]
+    if container == "nparray-values":                 # dict(zip(keys, array)): the values are numpy scalars of the array's dtype
+        vals = list(np.array(svals, dtype={"np-int64": np.int64, "np-int32": np.int32, "np-int8": np.int8, "np-float64": np.float64,
+                                           "np-float32": np.float32}.get(stype, np.int64)))
+    ks = [np.str_(k) for k in keys] if container == "npstr-keys" else list(keys)
+    if container == "ordered":
+        from collections import OrderedDict
+        return OrderedDict(zip(ks, vals))
+    return dict(zip(ks, vals))
+
+
+def _div_opt(N, optform):
+    """(opt_params object handed to the library, N the property sees (None = not requested))"""
+    if optform == "none":
+        return None, None
+    if optform == "empty":
+        return {}, None
+    if optform == "none-key":
+        return {"n_output_values": None}, None
+    if optform == "N-extra-key":
+        return {"n_output_values": N, "aux": True, "label": "x"}, N
+    if optform == "N-np-int64":
+        return {"n_output_values": np.int64(N)}, N
+    if optform == "N-float":
+        return {"n_output_values": float(N)}, N
+    return {"n_output_values": N}, N
+
+
+def div_build(params, opt, how, w, wires=None, reuse=None):
+    """(gate, definition, host or None, wires the instruction must sit on)"""
+    from qiskit import QuantumCircuit, QuantumRegister
+    from qclib.state_preparation.fnpoints import FnPointsInitialize
+    if reuse is not None:
+        # the SAME dict object served a previous construction with other contents (and that gate's definition was built)
+        other_params, other_N = reuse
+        opt_obj = opt
+        good = dict(opt_obj)
+        opt_obj.clear()
+        opt_obj["n_output_values"] = other_N
+        g0 = FnPointsInitialize(other_params, opt_params=opt_obj)
+        _ = g0.definition
+        opt_obj.clear()
+        opt_obj.update(good)
+    if how == "ctor":
+        g = FnPointsInitialize(params, opt_params=opt)
+        return g, g.definition, None, None
+    if how == "ctor-label":
+        g = FnPointsInitialize(params, label="div", opt_params=opt)
+        return g, g.definition, None, None
+    if how == "copy-before-def":
+        g = FnPointsInitialize(params, opt_params=opt)
+        g2 = g.copy()
+        host = QuantumCircuit(w)
+        host.append(g2, list(range(w)))
+        return g2, g2.definition, host, list(range(w))
+    if how == "def-then-copy":
+        g = FnPointsInitialize(params, opt_params=opt)
+        _ = g.definition
+        g2 = g.copy()
+        host = QuantumCircuit(w)
+        host.append(g2, list(range(w)))
+        return g2, g2.definition, host, list(range(w))
+    if how == "append-twice":
+        g = FnPointsInitialize(params, opt_params=opt)
+        host = QuantumCircuit(2 * w)
+        host.append(g, list(range(w)))
+        host.append(g, list(wires))
+        return g, g.definition, host, list(range(w))
+    if how == "static-none":
+        host = QuantumCircuit(w)
+        FnPointsInitialize.initialize(host, params, opt_params=opt)
+    elif how == "static-ints":
+        host = QuantumCircuit(w + 2)
+        FnPointsInitialize.initialize(host, params, qubits=list(wires), opt_params=opt)
+    elif how == "static-qubit-objs":
+        host = QuantumCircuit(QuantumRegister(2, "a"), QuantumRegister(w, "b"))
+        FnPointsInitialize.initialize(host, params, qubits=[host.qubits[i] for i in wires], opt_params=opt)
+    elif how == "static-registers":                    # registers declared as c, g, x; the gate wants x, g, c
+        n = (w - 1) // 2
+        c, gq, x = QuantumRegister(2, "c"), QuantumRegister(n - 1, "g"), QuantumRegister(n, "x")
+        host = QuantumCircuit(c, gq, x)
+        FnPointsInitialize.initialize(host, params, qubits=list(x) + list(gq) + list(c), opt_params=opt)
+        wires = [host.find_bit(q).index for q in list(x) + list(gq) + list(c)]
+    else:
+        raise ValueError(how)
+    g = host.data[0].operation
+    return g, g.definition, host, (list(range(w)) if how == "static-none" else list(wires))
+
+
+def _div_wires(rng, how, w):
+    if how == "append-twice":
+        return rng.sample(range(w, 2 * w), w)
+    if how in ("static-ints", "static-qubit-objs"):
+        ws = rng.sample(range(w + 2), w)
+        return ws[::-1] if ws == sorted(ws) else ws
+    return None
+
+
+def div_case(ctx, name, keys, svals, N, stype="int", container="dict", optform="N", how="ctor", wires=None, reuse=None, tie=True):
+    """svals / N: the integers the property speaks of; the library gets them in the given scalar type / container / option form /
+    call form.  Observable: N', full state of the definition (and of the host) vs the closed form."""
+    from flatten import flatten, to_lines
+    from qiskit.quantum_info import Statevector
+    import copy as _copy
+    n, m = len(keys[0]), len(keys)
+    w = 2 * n + 1
+    params = _div_params(keys, svals, stype, container)
+    opt, N_seen = _div_opt(N, optform)
+    h = hashlib.sha1(repr((list(keys), list(svals), N)).encode()).hexdigest()[:8]
+    key = f"fn:div:{name}:n={n}:m={m}:N={N_seen}:{stype}:{container}:{optform}:{how}:{h}"
+    rep = {"call": "FnPointsInitialize", "keys": list(keys), "s": [int(x) for x in svals], "N": N, "div": True, "name": name,
+           "stype": stype, "container": container, "optform": optform, "how": how, "wires": wires,
+           "reuse": None if reuse is None else [dict(reuse[0]), reuse[1]]}
+    for c in ("diversity:" + name, "diversity:type:" + stype, "diversity:container:" + container, "diversity:opt:" + optform,
+              "diversity:call:" + how):
+        ctx.count(c)
+    p_before, o_before = repr(params), repr(opt)
+    try:
+        gate, circ, host, on_want = div_build(params, opt, how, w, wires, reuse if optform == "reused-dict" else None)
+    except Exception as e:
+        ctx.fail(key + ":raises", f"construction raised {type(e).__name__}: {e}", rep)
+        return
+    if repr(params) != p_before or repr(opt) != o_before:
+        ctx.fail(key + ":input-mutated", f"the caller's params / opt_params were modified: {p_before} -> {params!r}; {o_before} -> {opt!r}", rep)
+    nprime = max(svals) - 1 if N_seen is None else nprime_of(svals, N_seen)
+    if tie:
+        ctx.tie(op_of(keys, svals, N_seen), [f"nprime {int(gate.n_output_values)} ;"] + to_lines(flatten(circ)))
+    want = target(keys, svals, nprime)
+    try:
+        got = Statevector(circ).data
+        ideal = np.zeros(2 ** w, dtype=complex)
+        for i, a in want.items():
+            ideal[i] = a
+        err = float(np.abs(got - ideal).max()) if circ.num_qubits == w else float("inf")
+        herr, on = 0.0, on_want
+        if host is not None:
+            on = [host.find_bit(q).index for q in host.data[0].qubits]
+            hv = np.asarray(Statevector(host).data)
+            hw = np.zeros(2 ** host.num_qubits, dtype=complex)
+            if how == "append-twice":
+                for i, a in want.items():
+                    for j, b in want.items():
+                        hw[i + sum(((j >> t) & 1) << wires[t] for t in range(w))] = a * b
+            else:
+                for i, a in want.items():
+                    hw[sum(((i >> t) & 1) << on_want[t] for t in range(w))] = a
+            herr = float(np.abs(hv - hw).max())
+    except Exception as e:
+        ctx.fail(key + ":raises", f"simulation raised {type(e).__name__}: {e}", rep)
+        return
+    if int(gate.n_output_values) != nprime or not err <= 1e-7 or not herr <= 1e-7 or on != on_want:
+        ctx.fail(key, f"N'={gate.n_output_values} (expected {nprime}); instruction on wires {on} (asked {on_want}); definition: max |state - "
+                      f"closed form| = {err:.3e}; host: {herr:.3e}", dict(rep, observed_err=max(err, herr)))
+    else:
+        ctx.ok(key, nontrivial=m >= 2 and any(x != 0 for x in svals), sample={"n": n, "m": m, "N": N, "err": err})
+
+
+def _diversity_cases(ctx):
+    r = ctx.rng
+    cyc = [0]
+    ctx.notes.append("precision remark (below the oracle tolerance, not alarmed): with outputs given as numpy float32 scalars and "
+                     "max s - 1 > N the code keeps N' as numpy.float32, so -s*2*pi/N' is rounded to binary32 (phase error up to "
+                     "~5e-7 rad, amplitudes ~1e-7); float32 outputs are therefore generated only with N >= max s - 1")
+
+    def next_how():
+        cyc[0] += 1
+        return DIV_HOWS[cyc[0] % len(DIV_HOWS)]
+
+    def pts(n, m):
+        return r.sample(all_keys(n), m)
+
+    def go(name, keys, svals, N, **kw):
+        how = kw.pop("how", None) or next_how()
+        div_case(ctx, name, keys, svals, N, how=how, wires=_div_wires(r, how, 2 * len(keys[0]) + 1), **kw)
+
+    # ---- 1. element types of the outputs / of N / of the keys / of the container
+    for n in (2, 3):
+        for stype in SCALARS:
+            m = r.randint(2, 2 ** n)
+            N = r.choice([2, 3, 5])
+            sv = [r.randrange(N) for _ in range(m)]
+            sv[r.randrange(m)] = N - 1
+            go("scalar type of the outputs", pts(n, m), sv, N, stype=stype, how="ctor")
+            go("scalar type of the outputs", pts(n, m), sv, N, stype=stype)
+            # beyond the requested range, so that max(...) - 1 of that scalar type decides N'
+            if stype == "np-float32":
+                continue          # N' would be a numpy float32 and the phases rounded to binary32 (<= ~1e-7 on amplitudes): see note
+            sv2 = list(sv)
+            sv2[r.randrange(m)] = N + r.randint(2, 4)
+            go("scalar type of the outputs, N' = max s - 1", pts(n, m), sv2, N, stype=stype)
+            go("scalar type of the outputs, N omitted", pts(n, m), sv2, None, stype=stype, optform=r.choice(["none", "empty", "none-key"]))
+        for stype in ("np-int64", "np-int32", "np-int8", "np-float64", "np-float32"):
+            m = r.randint(2, 2 ** n)
+            go("values taken from a numpy array", pts(n, m), [r.randrange(4) for _ in range(m - 1)] + [3], 4, stype=stype,
+               container="nparray-values")
+        for container in ("ordered", "npstr-keys"):
+            m = r.randint(2, 2 ** n)
+            go("container / key type", pts(n, m), [r.randrange(3) for _ in range(m - 1)] + [2], 3, container=container)
+        for optform in ("N-np-int64", "N-float", "N-extra-key"):
+            m = r.randint(2, 2 ** n)
+            go("type of n_output_values / unrelated extra key", pts(n, m), [r.randrange(5) for _ in range(m - 1)] + [4], 5,
+               optform=optform)
+            go("type of n_output_values / unrelated extra key", pts(n, m), [r.randrange(5) for _ in range(m - 1)] + [9], 5,
+               optform=optform, how=r.choice(["static-ints", "static-qubit-objs"]))
+    # ---- 2. scale structure
+    for n in (2, 3, 4):
+        m = r.randint(2, min(2 ** n, 6))
+        go("all outputs equal (non-zero)", pts(n, m), [3] * m, 5)
+        go("exactly repeated outputs", pts(n, m), [[1, 4][i % 2] for i in range(m)], 5)
+        go("one output far beyond the requested range", pts(n, m), [r.randrange(2) for _ in range(m - 1)] + [1000], 2)
+        go("one output far beyond the requested range, first in the list", pts(n, m), [257] + [r.randrange(3) for _ in range(m - 1)], 3)
+        for N in (10 ** 3, 10 ** 6):
+            go("huge N (tiny phases)", pts(n, m), [r.randrange(1, 4) for _ in range(m)], N)
+            go("huge N, outputs spread over the range", pts(n, m), [0, N - 1] + [r.randrange(N) for _ in range(m - 2)], N)
+    # ---- 3. phases exactly 0, pi/2, pi, 3pi/2; 2 pi and beyond; N' = 1
+    for n in (2, 3):
+        m = min(2 ** n, 5)
+        go("phases exactly +1, i, -1, -i", pts(n, m), [i % 4 for i in range(m)], 4)
+        go("phases exactly +1, -1", pts(n, m), [i % 2 for i in range(m)], 2)
+        for N in (2, 3, 5):
+            go("s = N' (phase 2 pi) and s = N' + 1", pts(n, m), [N, N + 1, 0, 1, N - 1][:m], N)
+        go("N' = 1 (every phase a multiple of 2 pi)", pts(n, m), [0, 1, 2, 1, 0][:m], 1)
+    # ---- 4. call forms: every option form x every call form on small inputs; N larger than max s - 1 so that dropping it shows
+    for n in (2, 3):
+        for optform in OPTFORMS:
+            for how in DIV_HOWS:
+                if n == 3 and (OPTFORMS.index(optform) + DIV_HOWS.index(how)) % 3:
+                    continue
+                m = r.randint(2, 2 ** n)
+                keys = pts(n, m)
+                if optform in ("none", "empty", "none-key"):
+                    sv = [r.randrange(6) for _ in range(m - 1)] + [r.randint(3, 7)]
+                    N = None
+                else:
+                    N = r.choice([3, 5, 8])
+                    sv = [r.randrange(1, N) for _ in range(m)]
+                r.shuffle(sv)
+                reuse = None
+                if optform == "reused-dict":
+                    reuse = (dict(zip(pts(n, 2), [0, 12])), N + 4)       # earlier construction: other points, larger N, larger max s
+                div_case(ctx, "option form x call form", keys, sv, N, optform=optform, how=how,
+                         wires=_div_wires(r, how, 2 * n + 1), reuse=reuse)
+    # ---- 5. sizes: n = 2, 3, 4 with m = 1, 2, 3, 2^n through the static helper with every keyword set
+    for n in (2, 3, 4):
+        for m in (1, 2, 3, 2 ** n):
+            N = r.choice([3, 7])
+            sv = [r.randrange(N) for _ in range(m)]
+            sv[0] = N - 1
+            how = ["static-ints", "static-qubit-objs", "static-registers"][(n + m) % 3]
+            if n == 4 and how != "static-registers":
+                how = "static-registers"                   # 11 wires stay within the dense cap
+            div_case(ctx, "static helper, every keyword, each size", pts(n, m), sv, N, how=how, wires=_div_wires(r, how, 2 * n + 1))
+
+
 def run(ctx, tie_nmax=None, or_nmax=None, sparse_nmax=None):
     gate_conventions(ctx)
+    tie_nmax_given = tie_nmax
     if tie_nmax is None:
         gen_nprime_tie(ctx)
     boundary_cases(ctx)
@@ -518,6 +803,8 @@ def run(ctx, tie_nmax=None, or_nmax=None, sparse_nmax=None):
                      "property C15's business")
 
     entry_forms(ctx)
+    if tie_nmax_given is None:
+        _diversity_cases(ctx)
 
     # ---- oracle: dense, all subsets n <= 3, all m for n = 4, sampled m for n = 5
     or_nmax = or_nmax or 5
@@ -576,6 +863,11 @@ def search(ctx, hints):
 
 def replay(ctx, payload):
     r = payload["replay"]
+    if r.get("div"):
+        reuse = r.get("reuse")
+        div_case(ctx, r.get("name", "replay"), r["keys"], r["s"], r["N"], stype=r["stype"], container=r["container"],
+                 optform=r["optform"], how=r["how"], wires=r.get("wires"), reuse=None if not reuse else (reuse[0], reuse[1]), tie=False)
+        return
     if r.get("form"):
         entry_case(ctx, r["keys"], r["s"], r["N"], r["form"], r["wires"])
         return
